@@ -123,7 +123,8 @@ def main():
         path = os.path.join("known", name + ".json")
         with open(os.path.join(ROOT, path), "w") as f:
             json.dump(plan, f, indent=1, ensure_ascii=True, sort_keys=True)
-        entries.append({"property": prop, "kind": "fixed", "commit": commit, "what": what, "witness": path})
+        entries.append({"property": prop, "kind": "fixed", "commit": commit, "what": what, "witness": path,
+                        "line": "fixed: property=%s %s %s" % (prop, commit, what)})
         res, _ = runner.replay_file(os.path.join(ROOT, path), "/repo/src")
         line = "%-40s HEAD:%s" % (name, res["status"])
         if res["status"] != "ok":
@@ -149,7 +150,8 @@ def main():
                 json.dump(plan, f, indent=1, ensure_ascii=True, sort_keys=True)
         else:
             bad += 1
-        entries.append({"property": prop, "kind": "known", "what": what, "witness": path})
+        entries.append({"property": prop, "kind": "known", "what": what, "witness": path,
+                        "line": "KNOWN-FINDING: property=%s %s" % (prop, what)})
         print("%-40s HEAD:%s %s" % (name, res["status"], (res.get("rule") or "") + " " + str(res.get("detail"))[:160]))
     with open(os.path.join(ROOT, "known_findings.json"), "w") as f:
         json.dump({"comment": "kind=known: genuine defects recorded rather than repaired, identified by their witness plan; the check "
